@@ -442,6 +442,9 @@ pub fn c10_case(ctx: &mut Ctx, tape: &[u8]) -> CaseResult {
     focus.assets = 20;
     focus.max_ops = 18;
     focus.re_register = true;
+    // half of the cases: bursts of one script purpose, so that several reward / vote / certificate / proposal
+    // pointers have to be told apart in one transaction
+    focus.bursts = true;
     let o = match built_tx(ctx, tape, focus) {
         Some(o) => o,
         None => {
